@@ -123,13 +123,17 @@ let run_hist (path : string) =
                    | None -> mismatch "input-doc-unparsable-by-model" h ""
                    | Some d ->
                        (match do_step (OAdd (d, Z0)) with
-                        | BAdd r -> if ares_string r <> rhs then mismatch "add" rhs (ares_string r)
+                        | BAdd r ->
+                            (* rejection kinds are recognised by message text (harness addClass); an unrecognised wording
+                               ("other") is accepted as any rejection the model predicts: rewording an error is not a difference *)
+                            let reworded = rhs = "other" && (match r with ROk -> false | _ -> true) in
+                            if ares_string r <> rhs && not reworded then mismatch "add" rhs (ares_string r)
                         | _ -> ()))
               | "B", [_] -> (* unreadable input: rejected, state unchanged *)
                   last_op := ("B", "", rhs);
                   (match do_step OAddBad with
                    | BAdd r -> let m = (match r with RFlush -> "flush" | _ -> "other") in
-                       if rhs <> m then mismatch "add-unreadable" rhs m
+                       if rhs <> m && rhs <> "other" then mismatch "add-unreadable" rhs m
                    | _ -> ())
               | ("R" | "r"), [] ->
                   last_r := rhs;
